@@ -26,6 +26,7 @@ EXPLANATION = (
     "condition and is deliberately not checked).")
 EXPLANATION += (" A dispatch that depends on the VALUE of a coordinate is a violation. Premise: C09's get_cell rules (coordinate -> id).")
 EXPLANATION += (' Overrides of get_cell keep the base signature; importing the package executes no call statement at module level.')
+EXPLANATION += (' LookupGenerator indexes its table by pos[0], pos[1], ... in that order.')
 ASSUMPTIONS = ["pandas column assignment / drop semantics", "C09 (row i holds the cell with id i)"]
 
 DW = ENV + 'DiscreteWorld'
@@ -197,6 +198,18 @@ def run(cx: Cx):
             variants = [(f_and(p.cond, v.cond), v.a), (f_and(p.cond, f_not(v.cond)), v.b)]
         for pcond, v in variants:
             _arm(arms, pcond, v, p, pos, arity, table)
+            # the table is indexed by the coordinates in their own order: table[x][y][z] (an exchanged pair hands cell (x, y, z)
+            # the entry of (y, x, z))
+            idx, t_ = [], strip_versions(v)
+            while isinstance(t_, Sub):
+                idx.append(strip_versions(t_.index))
+                t_ = strip_versions(t_.base)
+            idx.reverse()
+            if t_ == table and idx and idx != [pos] and idx != [Sub(pos, Num(Fraction(i))) for i in range(len(idx))] \
+                    and all(isinstance(i_, Sub) and strip_versions(i_.base) == pos for i_ in idx):
+                cx.violation('R-AGREE', lg.qualname, 'table-indexed-by-the-coordinates-in-order',
+                             f"LookupGenerator.__call__ returns {v!r}: the table is not indexed as table[pos[0]][pos[1]]... in coordinate "
+                             f"order, so a cell receives the entry of another cell", where=cx.where(lg, p.last.line))
     for _unused in ():
         depth = 0
         t = v
